@@ -419,6 +419,36 @@ def gen_strings(ctx, progs):
                 j = rng.randrange(0, len(cs) + 1)
                 cs[i:i] = cs[min(i, j):max(i, j)][:40]
         add("mutant", "".join(cs))
+    # token-level edits and truncations of real programs (the parser indexes its token vector by hand:
+    # every prefix ending at a token boundary probes an end-of-input path)
+    tokre = re.compile(r"\s+|[A-Za-z_][A-Za-z0-9_']*|\d+(?:\.\d+)?|'[^']*'|\"[^\"]*\"|.", re.S)
+    short = [p for p in progs if len(p) <= 400]
+    for p in (short if not ctx.quick() else rng.sample(short, min(len(short), 150))):
+        toks = tokre.findall(p)
+        cuts = range(1, len(toks)) if not ctx.quick() else rng.sample(range(1, max(2, len(toks))), min(3, max(1, len(toks) - 1)))
+        for k in cuts:
+            add("prefix", "".join(toks[:k]))
+        if len(toks) > 2:
+            add("suffix", "".join(toks[rng.randrange(1, len(toks)):]))
+    for _ in range(ctx.n(400, 8000)):
+        toks = tokre.findall(rng.choice(short))
+        for _ in range(rng.randrange(1, 3)):
+            if not toks:
+                break
+            i = rng.randrange(len(toks))
+            op = rng.randrange(5)
+            if op == 0:
+                del toks[i]
+            elif op == 1:
+                toks.insert(i, toks[i])
+            elif op == 2:
+                j = rng.randrange(len(toks))
+                toks[i], toks[j] = toks[j], toks[i]
+            elif op == 3:
+                toks[i] = rng.choice(FRAGS)
+            else:
+                toks.insert(i, rng.choice(FRAGS))
+        add("token-mutant", "".join(toks))
     for _ in range(ctx.n(150, 2000)):
         n = rng.randrange(1, 40)
         add("random", "".join(rng.choice(alphabet) for _ in range(n)))
@@ -496,7 +526,8 @@ def run_tokens_and_totality(ctx, runner, strings):
     # (c) totality of parse
     extra = totality_extra(ctx)
     allsrc = strings + extra
-    pres = common.run_harness(B, [{"mode": "parse", "src": s, "stack_mb": 8} for _, s in allsrc], timeout=20.0)
+    # generous limit: a hang verdict must not be produced by machine load (the longest inputs parse in well under a second)
+    pres = common.run_harness(B, [{"mode": "parse", "src": s, "stack_mb": 8} for _, s in allsrc], timeout=60.0)
     outcomes = {}
     for (kind, s), r in zip(allsrc, pres):
         st = r.get("status")
